@@ -144,5 +144,16 @@ CLAIMED.update({
             "DESIGN.md 3 (C18), 9"),
 })
 
+CLAIMED.update({
+    "C04": ("proof", "linear-arithmetic obligations over SYMBOLIC sizes: connection size (any value 200..8000), element counts 1..65535, structure "
+            "sizes, tag-name lengths (request path abstracted with proved length bounds): every packet a read / write builder returns has a "
+            "connected data item <= the connection size and every non-fragmented or multi-service read solicits a reply <= that size "
+            "(estimate >= actual), each request id lands in exactly one packet; write fragments tile the value (offsets from 0, contiguous, "
+            "concatenation == value, each item <= size); each follow-up read fragment asks for the bytes received so far and the chunks "
+            "reassemble; Forward Open asks for the configured size. Bounds of the instances: 1-3 requests per call, <= 4 write fragments, "
+            "<= 3 read fragments (all sizes within them)", "contracts over symbolic sizes (pyvc + z3, linear integer arithmetic)",
+            "DESIGN.md 3 (C04), 9"),
+})
+
 if __name__ == "__main__":
     main()
